@@ -298,6 +298,10 @@ def make_keys(rng, ks, n=None):
 
 def make_values(rng, default):
     vals = [bytes([rng.randrange(1, 256)]) * rng.choice([1, 3, 32, 64]) for _ in range(rng.choice([2, 3, 4]))]
+    if rng.random() < 0.15:
+        from ..hgen import MAGIC
+
+        vals.append(rng.choice(MAGIC))
     if rng.random() < 0.5:
         vals.append(b"")
     if default and rng.random() < 0.4:
